@@ -457,7 +457,7 @@ Proof.
   destruct (rw_logical es (map (kept sl) ns) ns old W B F R (Dn ns F)) as (es' & RW & W' & X).
   destruct (written_reads es' W') as (WA' & RA').
   exists (write_raw_archive 0 (map ser_entry es')), es'. split; [|split; [reflexivity|split; [exact W'|split; [exact WA'|]]]].
-  - unfold run_edit. cbn [Transform.needs_files andb]. change (read_all b) with (read_archive b). rewrite RA. cbn [bind].
+  - unfold run_edit. cbn [Transform.needs_files andb Transform.eff_sel]. change (read_all b) with (read_archive b). rewrite RA. cbn [bind].
     rewrite (edit_delete_rw expand_p rebuild_p keep pwb hdr_tok content_tok sl es ns F []), app_nil_r, RW. reflexivity.
   - intros SD. unfold AppendContainerFacts.xlogical. rewrite RA'. cbn [bind]. rewrite (X SD). f_equal. apply sel_kept. exact R.
 Qed.
